@@ -37,6 +37,8 @@ type flowCtx struct {
 	call     func() error
 	verify   func(err error)
 	rootsPre *types.RootCertificates
+	// rootsUsable: before the call current was valid, or current had expired and next was valid (no start-over due)
+	rootsUsable bool
 	noRetry  bool
 	lied     bool // one of the injected faults made storage claim an existing record is absent
 }
@@ -456,6 +458,13 @@ func wireFlow(fc *flowCtx, faultNode bool, token bool) {
 func rootsFlow(fc *flowCtx, reinit bool) {
 	var got *types.RootCertificates
 	fc.rootsPre, _ = types.LoadRootCertificates(contextBG, fc.srv.Inner, fc.srv.Opts()...)
+	if p := fc.rootsPre; p != nil && p.Current != nil && p.Next != nil {
+		now := time.Now()
+		in := func(rc *types.RootCertificate) bool {
+			return !now.Before(rc.NotBefore.AsTime()) && !now.After(rc.NotAfter.AsTime())
+		}
+		fc.rootsUsable = in(p.Current) || (now.After(p.Current.NotAfter.AsTime()) && in(p.Next))
+	}
 	opts := fc.srv.Opts()
 	if reinit {
 		opts = append(opts, nodeenrollment.WithReinitializeRoots(true))
@@ -477,6 +486,14 @@ func rootsFlow(fc *flowCtx, reinit bool) {
 		}
 		if reinit && fc.rootsPre != nil && (bytes.Equal(st.Current.PublicKeyPkix, fc.rootsPre.Current.PublicKeyPkix) || bytes.Equal(st.Next.PublicKeyPkix, fc.rootsPre.Next.PublicKeyPkix)) {
 			fc.v("durable", "reinit-kept-old-root", "reinitialization reported success but an old root is still stored")
+		}
+		if !reinit && fc.rootsPre != nil && !fc.lied && fc.rootsUsable {
+			// a storage operation that FAILS is no reason to start over: with usable roots stored before the call, whatever
+			// the call stores is their continuation (same current, or the previous next promoted). Only storage claiming
+			// that there are no roots (the injected not-found) may lead to a fresh pair.
+			if !bytes.Equal(st.Current.PublicKeyPkix, fc.rootsPre.Current.PublicKeyPkix) && !bytes.Equal(st.Current.PublicKeyPkix, fc.rootsPre.Next.PublicKeyPkix) {
+				fc.v("fail-closed", "roots-replaced-because-a-storage-operation-failed", "usable roots were stored before the call; a storage operation failed and the call replaced both roots (trust reset) instead of failing")
+			}
 		}
 	}
 }
@@ -520,7 +537,8 @@ func rotateNodeFlow(fc *flowCtx, byNodeID bool) {
 func runFaultCase(r *kernel.Run, fl faultFlow, backend string, sw bool, faults map[int]string) (int, string) {
 	srv := NewWorld(r, "server", backend, sw, strings.HasSuffix(fl.name, "node-id") || fl.name == "generate-server-certs")
 	node := NewWorld(r, "node", map[string]string{"inmem": "inmem", "file": "file", "storeonce": "inmem"}[backend], sw, false)
-	if _, err := rotation.RotateRootCertificates(srv.Ctx, srv.Storage, srv.Opts()...); err != nil {
+	// the application keeps state on the roots record (set once, at bootstrap)
+	if _, err := rotation.RotateRootCertificates(srv.Ctx, srv.Storage, srv.Opts(nodeenrollment.WithState(mkStruct(r, 2)))...); err != nil {
 		r.HarnessErr("setup roots: %v", err)
 	}
 	fc := &flowCtx{r: r, srv: srv, node: node, target: srv, id: NewIdent("subject")}
@@ -570,8 +588,8 @@ func runFaultCase(r *kernel.Run, fl faultFlow, backend string, sw bool, faults m
 
 // the three error kinds of the property's quantifier, plus two that deployments meet: a write that was applied although
 // the caller is told it failed (lost acknowledgement), and a crash (this and every later operation fails; the retry runs
-// after a restart over whatever became durable)
-var faultKinds = []string{simstore.FaultErr, simstore.FaultNotFound, simstore.FaultCancel, simstore.FaultLostAck, simstore.FaultCrash}
+// after a restart over whatever became durable), and a back end that times out on its own while the caller's context is live
+var faultKinds = []string{simstore.FaultErr, simstore.FaultNotFound, simstore.FaultCancel, simstore.FaultLostAck, simstore.FaultCrash, simstore.FaultDeadline}
 
 func c13Configs() (out [][3]any) {
 	for fi := range faultFlows {
